@@ -250,7 +250,9 @@ func main() {
 			{"Jid", "Bare"}, {"Jid", "Full"}}),
 		genTr("TrRoot", root, rootInfo, rootPkg, []trFn{{"", "ensurePort"}, {"", "NewClientTransport"}, {"", "NewComponentTransport"},
 			{"backoff", "setDefault"}, {"backoff", "durationForAttempt"}, {"backoff", "duration"}, {"backoff", "reset"},
-			{"", "isSupportedMech"}, {"", "authSASL"}}),
+			{"", "isSupportedMech"}, {"", "authSASL"},
+			{"", "matchInArray"}, {"nameMatcher", "Match"}, {"nsTypeMatcher", "Match"}, {"nsIQMatcher", "Match"},
+			{"Matcher", "Match"}, {"Route", "Match"}, {"Router", "Match"}}),
 	} {
 		if err := g.write(*out); err != nil {
 			fmt.Fprintln(os.Stderr, err)
